@@ -159,6 +159,143 @@ def _hc_stale():
     return ok_before and caught
 
 
+# ------------------------------------------------------------------------------------------------ refused streams
+
+
+def feed_until_refused(stream: bytes, chunks, cap=None):
+    """as feed(), for streams the reader may refuse (a byte which is not ASCII, a line over MAX_COMMAND_SIZE): stops at the
+    first _handle_problem, as the real one terminates the helper -> (queued commands, refused?)"""
+    from exabgp.reactor.api.processes import Processes
+
+    rfd, wfd = os.pipe()
+    os.set_blocking(rfd, False)
+    pr = Processes.__new__(Processes)
+    proc = _Proc(rfd)
+    pr._process = {'p': proc}
+    pr._buffer = {}
+    pr._command_queue = deque()
+    pr._async_mode = False
+    pr._loop = None
+    pr._get_stdout = lambda name: proc.stdout
+    if cap is not None:
+        pr.MAX_COMMAND_SIZE = cap  # the constant of the class is 1 MiB: one case below keeps it
+    problems = []
+    pr._handle_problem = lambda name: problems.append(name)
+    try:
+        pos, k = 0, 0
+        while pos < len(stream) and not problems:
+            n = chunks[k % len(chunks)]
+            k += 1
+            while n > 0 and pos < len(stream):  # a pipe takes 64 KiB at a time
+                m = min(n, 16384)
+                os.write(wfd, stream[pos : pos + m])
+                pos += m
+                n -= m
+                pr._async_reader_callback('p')
+                if problems:
+                    break
+    finally:
+        os.close(wfd)
+        proc.stdout.close()
+    return [c for _, c in pr._command_queue], bool(problems)
+
+
+A, B = b'announce route 10.1.0.0/24 next-hop 1.2.3.4\n', b'withdraw route 10.1.0.0/24\n'
+REFUSED = [
+    # (stream, cap): a byte which is not ASCII after / between / inside / before commands; a line longer than the cap
+    (A + b'\xff\n', None),
+    (A + B + b'show \xc3\xa9\n' + A, None),
+    (b'\xff\n' + A, None),
+    (A + b'partial \x80', None),
+    (A + b'#' + b'x' * 70 + b'\n' + B, 64),
+    (A + B + b'#' + b'x' * 64 + b'\n', 64),
+    (b'#' + b'x' * 65 + b'\n' + A, 64),
+    (A + b'#' + b'x' * 63 + b'\n' + B, 64),
+    (A + b'#' + b'x' * 64 + b'\n' + B, 64),
+]
+
+
+def refused_case(stream, cap, chunks, want):
+    inp = {'stream': stream.decode('latin-1')[:200], 'length': len(stream), 'cap': cap, 'chunks': list(chunks)[:12]}
+    try:
+        got = feed_until_refused(stream, chunks, cap)
+    except Exception as e:  # noqa
+        return {'what': f'reader callback raised {type(e).__name__}: {str(e)[:160]}', 'input': inp}
+    if got != want:
+        return {'what': 'the same bytes delivered in other reads: other commands queued (or the helper refused in one delivery and not in the other)', 'input': inp, 'expected': {'one line per read': want}, 'observed': got}
+    return None
+
+
+def line_by_line(stream):
+    out, run = [], 0
+    for ch in stream:
+        run += 1
+        if ch == 10:
+            out.append(run)
+            run = 0
+    return out + [run or 1]
+
+
+@bounded('C14', 'streams-the-reader-refuses')
+def refused_streams(tier, seed):
+    """PROPERTY: however the pipe delivers the bytes the same commands are executed.  A stream the reader REFUSES (a byte
+    which is not ASCII, a line over MAX_COMMAND_SIZE) is no exception: what was queued before the helper was declared
+    broken must not depend on where the reads were cut.  Reference = the delivery one line per read."""
+    from exabgp.reactor.api.processes import Processes
+
+    rnd = random.Random(seed)
+    fails, evals, distinct = [], 0, set()
+    for stream, cap in REFUSED:
+        want = feed_until_refused(stream, line_by_line(stream), cap)
+        cuts = [[len(stream)], [1], [2], [3, 1], [7], [63], [64], [65], [66]]
+        for i, ch in enumerate(stream):
+            if ch == 10 or ch >= 128:
+                for a in (i, i + 1, i + 2):
+                    if 0 < a < len(stream):
+                        cuts.append([a, len(stream)])
+        for _ in range(20 if tier == 'quick' else 300):
+            cuts.append([rnd.randint(1, 40) for _ in range(12)])
+        for chunks in cuts:
+            evals += 1
+            distinct.add((stream, tuple(chunks)))
+            f = refused_case(stream, cap, chunks, want)
+            if f:
+                fails.append(f)
+    # the constant of the tree itself: a comment line of MAX_COMMAND_SIZE + 10 octets, the newline in the read which
+    # crosses the cap or in a later one
+    big = Processes.MAX_COMMAND_SIZE
+    stream = A + b'#' + b'x' * (big + 9) + b'\n' + B
+    want = feed_until_refused(stream, line_by_line(stream), None)
+    for chunks in ([len(stream)], [len(A) + big - 5, 16384], [len(A) + big + 5, 16384], [len(A), big, 16384]):
+        evals += 1
+        distinct.add((b'big', tuple(chunks)))
+        f = refused_case(stream, None, chunks, want)
+        if f:
+            f['input']['stream'] = 'announce route ...\\n#xxx (MAX_COMMAND_SIZE + 10 octets)\\nwithdraw route ...\\n'
+            fails.append(f)
+    fails.sort(key=lambda f: (f['input']['length'], len(f['input']['chunks'])))
+    return {
+        'evaluations': evals,
+        'distinct_nontrivial': len(distinct),
+        'bound': f'{len(REFUSED)} streams (a non-ASCII byte after, between, inside and before commands; a line of cap / cap+1 / cap+2 / cap+7 octets with the cap set to 64 on the instance) x whole / 1 / 2 / cuts at and around every newline and every non-ASCII byte / sampled chunkings, plus a line of MAX_COMMAND_SIZE + 10 with the real constant in 4 deliveries',
+        'rule': 'one case = (stream, chunk sizes); reference = the same stream delivered one line per read',
+        'samples': [{'stream': 'announce route 10.1.0.0/24 next-hop 1.2.3.4\\n\\xff\\n', 'chunks': [46]}],
+        'failures': fails,
+    }
+
+
+@replayer('C14', 'streams-the-reader-refuses')
+def _replay_refused(f):
+    i = f['input']
+    if i['length'] > 1000:
+        from exabgp.reactor.api.processes import Processes
+
+        stream, cap = A + b'#' + b'x' * (Processes.MAX_COMMAND_SIZE + 9) + b'\n' + B, None
+    else:
+        stream, cap = i['stream'].encode('latin-1'), i['cap']
+    return refused_case(stream, cap, i['chunks'], feed_until_refused(stream, line_by_line(stream), cap)) is None
+
+
 # ------------------------------------------------------------------------------------------------ selectors
 
 PEERS = [
